@@ -677,11 +677,16 @@ func dobs(reg *registry, kind int, d decOut) (string, encOut) {
 	case d.err != nil:
 		return fmt.Sprintf("(DErr %d)", errClass(d.err)), encOut{}
 	}
+	// project BEFORE re-encoding: Encode runs SetFlags on the decoded object
+	gv := "None"
+	if pv := (&proj{}).obj(reflect.ValueOf(d.obj)); len(pv) < 20000 {
+		gv = "(Some " + pv + ")"
+	}
 	re := goEncode(d.obj, kind)
 	if re.panicked || re.err != nil {
 		return "(DErr 99)", re
 	}
-	return fmt.Sprintf("(DOk %s %d)", hx.Bytes(re.bytes), d.unread), re
+	return fmt.Sprintf("(DOk %s %d %s)", hx.Bytes(re.bytes), d.unread, gv), re
 }
 
 func (h *H) emitDec(reg *registry, kind int, id uint32, box reflect.Type, data []byte, d decOut, stream string, rp replay) (int, int) {
@@ -839,6 +844,67 @@ func discoverBoxes() []reflect.Type {
 	return res
 }
 
+
+// dirtyCase: Decode into a receiver that already holds another value of the same constructor
+// (what a caller that reuses a result object does), compared with Decode into a fresh value.
+func (h *H) dirtyCase(reg *registry, id uint32, seed uint64, wantCoq bool) {
+	c := h.c
+	mkv := func(sd uint64) (bin.Object, bool) {
+		g := &gen{r: hx.NewRand(sd), reg: reg, canonical: true}
+		o := reg.ctors[id]()
+		g.fillStruct(reflect.ValueOf(o).Elem(), 0)
+		g.canonicalize(reflect.ValueOf(o), 0)
+		p := &proj{}
+		p.obj(reflect.ValueOf(o))
+		return o, !p.generic && !hasGenericField(reflect.TypeOf(o).Elem())
+	}
+	a, okA := mkv(seed)
+	b, okB := mkv(seed ^ 0x9e3779b97f4a7c15)
+	if !okA || !okB {
+		return
+	}
+	enc := goEncode(b, kBoxed)
+	if enc.err != nil || enc.panicked {
+		return
+	}
+	c.Obs.Evaluations++
+	c.Count("dirty:" + reg.name)
+	rp := replay{Mode: "dirty", Sch: reg.sch, Kind: kBoxed, ID: id, Seed: seed}
+	h.watch(rp)
+	defer h.unwatch()
+	oldS := (&proj{}).obj(reflect.ValueOf(a))
+	fresh := goDecode(reg, kBoxed, id, nil, nil, enc.bytes)
+	buf := &bin.Buffer{Buf: append([]byte(nil), enc.bytes...)}
+	d := decOut{obj: a}
+	d.panicked, d.pval = hx.Recover(func() { d.err = a.Decode(buf) })
+	d.unread = len(buf.Buf)
+	name := typeName(a)
+	shard, index := -1, 0
+	obs, _ := dobs(reg, kBoxed, d) // projects the decoded receiver before re-encoding it
+	stale := false
+	if !d.panicked && d.err == nil && !fresh.panicked && fresh.err == nil {
+		stale = (&proj{norm: true}).obj(reflect.ValueOf(a)) != (&proj{norm: true}).obj(reflect.ValueOf(fresh.obj))
+	}
+	// every case that shows stale state goes to the model comparison (decode_into must reproduce it)
+	if (wantCoq || stale) && len(oldS) < h.maxCase && len(enc.bytes) < h.maxCase/4 {
+		shard, index = c.Case(fmt.Sprintf("CInto %d %d %s %s %s", reg.sch, id, oldS, hx.Bytes(enc.bytes), obs),
+			map[string]interface{}{"replay": rp, "type": name, "stream": "dirty"})
+	}
+	switch {
+	case d.panicked:
+		c.Violate("decode-panic:other", fmt.Sprintf("%s.%s: Decode into a reused receiver panicked: %v", reg.name, name, d.pval), shard, index, rp)
+	case d.err != nil || fresh.err != nil || fresh.panicked:
+		c.Violate("roundtrip-fails:"+name, fmt.Sprintf("%s.%s: Decode of a valid encoding failed (reused receiver: %v, fresh: %v)", reg.name, name, d.err, fresh.err), shard, index, rp)
+	default:
+		x, y := (&proj{norm: true}).obj(reflect.ValueOf(a)), (&proj{norm: true}).obj(reflect.ValueOf(fresh.obj))
+		if x != y && shard < 0 {
+			c.Count("dirty:stale-but-too-large-for-the-model-comparison")
+		} else if x != y {
+			c.Nontrivial(fmt.Sprintf("dirty:%d:%d", reg.sch, id))
+			c.Violate("stale-state-on-reused-receiver", fmt.Sprintf("%s.%s: Decode into a receiver that held another value differs from Decode into a fresh value: %s", reg.name, name, firstDiff(y, x)), shard, index, rp)
+		}
+	}
+}
 
 // ---------- vector count sites ----------
 
@@ -1179,6 +1245,8 @@ func main() {
 			h.deep(rp.Depth)
 		case "trunc":
 			h.truncOracle()
+		case "dirty":
+			h.dirtyCase(reg, rp.ID, rp.Seed, true)
 		}
 		for _, v := range c.Obs.Violations {
 			fmt.Printf("replay: VIOLATION %s: %s\n", v.Sig, v.Desc)
@@ -1228,6 +1296,18 @@ func main() {
 				want := n%stride == 0 || (round == 0 && reg.sch != 0 && n%2 == 0)
 				h.valueCase(reg, id, seed, canonical, want)
 				n++
+			}
+		}
+	}
+	// reused receivers: a sample of the constructors of tg, all of mt and e2e
+	{
+		k := 0
+		for _, reg := range h.regs {
+			for _, id := range reg.ids {
+				k++
+				if c.Thorough() || reg.sch != 0 || k%6 == 0 {
+					h.dirtyCase(reg, id, c.Rng.U64(), k%9 == 0)
+				}
 			}
 		}
 	}
